@@ -1219,13 +1219,16 @@ func (e *xstore) do(op string) {
 				e.stoks = append(e.stoks, e.storeObs()...)
 				return
 			}
-		case <-time.After(30 * time.Second):
+		case <-time.After(15 * time.Second):
 			// a hang is C09's business (F1): not judged here; stop using this store
 			e.gcHung = true
 			if f1Present {
 				run.Count("gc-hang-not-judged")
 			} else if os.Getenv("C07_NO_CONFIRM") == "" && confirmHang(e.replay()) {
-				e.fail("gc-hang", "GC did not return within 30 s, and again not within 120 s in a fresh process replaying the same history")
+				e.fail("gc-hang", "GC did not return within 15 s, and again not within 60 s in a fresh process replaying the same history")
+				// the stuck goroutine cannot be stopped: report what was recorded and stop
+				run.Finish()
+				os.Exit(0)
 			} else {
 				run.Count("gc-hang-not-reproduced")
 			}
@@ -1649,7 +1652,7 @@ func replayStore(rep storeReplay) {
 }
 
 // confirmHang replays a history in a fresh child process (a slow machine must not be
-// reported as a hanging GC): true iff the child does not finish within 120 s.
+// reported as a hanging GC): true iff the child does not finish within 60 s.
 func confirmHang(rep storeReplay) bool {
 	self, err := os.Executable()
 	if err != nil {
@@ -1675,7 +1678,7 @@ func confirmHang(rep storeReplay) bool {
 	select {
 	case <-done:
 		return false
-	case <-time.After(120 * time.Second):
+	case <-time.After(60 * time.Second):
 		cmd.Process.Kill()
 		<-done
 		return true
@@ -1742,7 +1745,82 @@ var exec_Command = exec.Command
 
 // ------------------------------------------------------------------ main
 
+// caseFromSeed runs one generated case under a watchdog: a case that does not return (a lock
+// never released, a goroutine waiting for ever) becomes an oracle failure with a replay
+// instead of a hanging check.  A slow machine is told apart by re-running the case in a fresh
+// child process before anything is reported.
 func caseFromSeed(part string, seed uint64) {
+	if os.Getenv("C07_NO_CONFIRM") != "" {
+		// confirmation child: the parent holds the clock
+		caseFromSeedBody(part, seed)
+		return
+	}
+	done := make(chan struct{})
+	go func() {
+		defer close(done)
+		caseFromSeedBody(part, seed)
+	}()
+	limit := 20 * time.Second
+	select {
+	case <-done:
+		return
+	case <-time.After(limit):
+	}
+	rep := map[string]any{"kind": "seed", "part": part, "seed": strconv.FormatUint(seed, 10)}
+	t0 := time.Now()
+	wedged := confirmWedge(rep)
+	how := "and again not in a fresh process"
+	if !wedged {
+		// A fresh process got through the same case (a wedge inside a concurrent block depends on
+		// the schedule), so the machine is not simply slow: the original gets three times the
+		// child's time on top, then it is reported.
+		select {
+		case <-done:
+			run.Count("watchdog-slow-case")
+			return
+		case <-time.After(3*time.Since(t0) + 10*time.Second):
+		}
+		how = "while a fresh process completed the same case in the meantime (schedule dependent)"
+	}
+	run.OracleFail(run.NewID(), "case-wedged", fmt.Sprintf("the %s case of seed %d did not return within %v, %s", part, seed, limit, how), rep)
+	run.Finish()
+	os.Exit(0) // the stuck goroutine cannot be stopped; what was recorded so far is judged
+}
+
+// confirmWedge replays a case in a child process: true iff it does not finish within 60 s.
+func confirmWedge(rep map[string]any) bool {
+	self, err := os.Executable()
+	if err != nil {
+		return true
+	}
+	dir, err := os.MkdirTemp("", "c07wedge")
+	if err != nil {
+		return true
+	}
+	defer os.RemoveAll(dir)
+	js, _ := json.Marshal(map[string]any{"cases": []any{rep}})
+	rp := filepath.Join(dir, "replay.json")
+	if os.WriteFile(rp, js, 0o644) != nil {
+		return true
+	}
+	cmd := exec_Command(self, "-seed", "1", "-tier", run.Tier, "-dir", filepath.Join(dir, "out"), "-replay", rp)
+	cmd.Env = append(os.Environ(), "C07_NO_CONFIRM=1")
+	if cmd.Start() != nil {
+		return true
+	}
+	done := make(chan error, 1)
+	go func() { done <- cmd.Wait() }()
+	select {
+	case <-done:
+		return false
+	case <-time.After(60 * time.Second):
+		cmd.Process.Kill()
+		<-done
+		return true
+	}
+}
+
+func caseFromSeedBody(part string, seed uint64) {
 	r := common.NewRand(seed)
 	origin := fmt.Sprintf("%s-seed-%d", part, seed)
 	switch part {
